@@ -109,6 +109,13 @@ impl Aligned {
     pub fn as_ptr(&self) -> *const u8 {
         self.words.as_ptr() as *const u8
     }
+    /// Overwrites the content in place (same address, same length).
+    pub fn overwrite(&mut self, b: &[u8]) {
+        assert_eq!(b.len(), self.len);
+        unsafe {
+            std::ptr::copy_nonoverlapping(b.as_ptr(), self.words.as_mut_ptr() as *mut u8, b.len());
+        }
+    }
     /// A view that starts `mis` bytes after an 8-aligned address.
     pub fn with_offset(b: &[u8], mis: usize) -> (Self, usize) {
         let mut v = vec![0u8; mis];
